@@ -30,6 +30,43 @@ def shard_run(ctx, cases, tag, nproc=10):
     return events
 
 
+GEN_OPTS = [("schemaOutput", "./gen/schema.d.ts"), ("schemaModuleSpecifier", "@/gen/schema"), ("resolversOutput", "./gen/resolvers.d.ts"),
+            ("serverGraphqlOutput", "./gen/server.ts"), ("emitSchemaRuntime", True)]
+
+
+def cli_config_runs(ctx):
+    vlib.build_cli()
+    cases, texts = [], []
+    for mask in range(1 << len(GEN_OPTS)):
+        for ops in (False, True):
+            for mode in (None, "standalone-ts-4.0"):
+                for plugin in (False, True):
+                    gen = {k: v for i, (k, v) in enumerate(GEN_OPTS) if mask >> i & 1}
+                    if gen.get("emitSchemaRuntime") and mask & 1 and (mask >> 1) & 1 == 0 and ops:
+                        gen["schemaOutput"] = "./gen/schema.ts"
+                    if mode:
+                        gen["mode"] = mode
+                    cfg = {"schema": "./schema/*.graphql", "extensions": {"nitrogql": {"generate": gen}}}
+                    if ops:
+                        cfg["documents"] = "./ops/*.graphql"
+                    if plugin:
+                        cfg["extensions"]["nitrogql"]["plugins"] = ["nitrogql:model-plugin"]
+                    text = json.dumps(cfg)
+                    files = [{"rel": "graphql.config.json", "text": text}, {"rel": "schema/s.graphql", "text": "type Query { a: Int q: Query }\n"}]
+                    if ops:
+                        files.append({"rel": "ops/q.graphql", "text": "query Q { a q { a } }\n"})
+                    cases.append({"id": len(cases), "files": files, "args": ["generate"], "texts": False})
+                    texts.append(text)
+    vlib.write_ndjson(ctx.path("cli_cases.ndjson"), cases)
+    vlib.run_harness(["cliproj", vlib.CLI_BIN, ctx.path("cli_cases.ndjson"), ctx.path("cli_runs.ndjson"), ctx.path("cliproj"), "12"], timeout=3000)
+    out = []
+    for r in sorted(vlib.read_ndjson(ctx.path("cli_runs.ndjson")), key=lambda r: r["id"]):
+        o = "panic" if (r["panicked"] or r["signal"]) else "ok" if r["exit"] == 0 else "err"
+        out.append({"ev": "Stages", "id": 10_000_000 + r["id"], "kind": "cli-config", "cp": [ord(c) for c in texts[r["id"]]] if o == "panic" else [],
+                    "stages": [{"s": "cli-generate", "o": o}]})
+    return out
+
+
 def run(ctx, res):
     vlib.build_harness()
     docs = [{"kind": "op", "A": d} for d in c07.op_catalog()] + [{"kind": "ts", "A": d} for d in c07.ts_catalog()]
@@ -90,10 +127,14 @@ def run(ctx, res):
     events = shard_run(ctx, cases, "all")
     if len(events) != len(cases):
         raise vlib.ToolError("stage driver returned %d events for %d cases" % (len(events), len(cases)))
+    # configuration texts that PARSE, all the way through the real CLI's `generate`: every combination of the output options, with and
+    # without operation documents (a stage of its own in the pipeline model: a configuration is rejected with a diagnostic, never a panic)
+    cli_events = cli_config_runs(ctx)
     # keep the text only where something went wrong (size)
     for e in events:
         if all(s["o"] in ("ok", "err", "accepted", "rejected") for s in e["stages"]):
             e["cp"] = []
+    events = events + cli_events
     o = vlib.validate_trace("Trace_C08", "Trace_C08.cfg", events, workdir=ctx.work, timeout=2400)
     tool = [i for i in o.items if i.get("cls") == "driver-order"]
     if tool:
@@ -111,7 +152,9 @@ def run(ctx, res):
     res.rule = ("Spec->impl: Gen_C08 enumerates the token-mutation space (document x token position x {delete, dup, swap, replace, insert, "
                 "truncate} x 28 replacement token classes; positions stepped by %s) over %d catalogue documents: %d mutated texts; plus the "
                 "unmutated documents, %d random token soups, %d grammar-built documents that reuse response keys for different fields / shapes and "
-                "spread one fragment several times under different conditions, random Unicode strings, nesting depth 8/32/64 and %d configuration texts. Every "
+                "spread one fragment several times under different conditions, random Unicode strings, nesting depth 8/32/64 and %d configuration texts; "
+                "plus 256 configurations that parse (every combination of the five output options x with / without operation documents x mode x model plugin) "
+                "run through the real CLI's `generate`. Every "
                 "text is fed to every stage the pipeline model reaches (parse, extensions, imports, check, then generation or diagnostic "
                 "rendering; and the loader ABI without check) in crash-isolated child processes. Impl->spec: Trace_C08 accepts only ok/err "
                 "outcomes within 5 s per stage and checks the stage order against the model. Non-trivial = input that got past the first stage."
